@@ -460,6 +460,118 @@ def lindblad_glue(repo):
 """ % (llm, lld, loc[fin[0]], loc[fin[1]], loc[fin[2]])
 
 
+# ------------------------------------------------------------------------------------------- Foerster tensors: initialize()
+T_FILL_LOOP = """
+for aa in range(H_n1):
+    for bb in range(H_n2):
+        if H_cond:
+            H_arr[H_tgt] = H_val
+"""
+
+
+def _flat(stmts):
+    """statements of a body with `with` blocks opened (their order of execution)"""
+    out = []
+    for st in _live(stmts):
+        if isinstance(st, ast.With):
+            out += _flat(st.body)
+        else:
+            out.append(st)
+    return out
+
+
+def _touches_data(st):
+    for nd in ast.walk(st):
+        if isinstance(nd, ast.Attribute) and isinstance(nd.value, ast.Name) and nd.value.id == "self" and nd.attr in ("data", "_data"):
+            return True
+        if isinstance(nd, ast.Call) and ast.unparse(nd.func) in ("self.updateStructure", "self.add_dephasing", "self.secularize"):
+            return True
+    return False
+
+
+def _foerster_init(repo, path, qual, lead, tag, rates_name, always_dephasing):
+    fn = _src_of(repo + path, qual)
+    seq = [st for st in _flat(fn.body) if _touches_data(st)]
+    # 1. the zeroed storage is allocated HERE, first
+    if not seq or not (isinstance(seq[0], ast.Assign) and ast.unparse(seq[0].targets[0]) == "self.data"
+                       and isinstance(seq[0].value, ast.Call) and ast.unparse(seq[0].value.func) == "numpy.zeros"):
+        raise Untranslatable("%s: the first statement touching self.data is not `self.data = numpy.zeros(...)`" % qual)
+    shape = seq[0].value.args[0]
+    dims = [ast.unparse(x) for x in shape.elts] if isinstance(shape, ast.Tuple) else []
+    if dims != (["Nt"] if lead else []) + ["Na"] * 4:
+        raise Untranslatable("%s: zero tensor of shape %s" % (qual, ast.unparse(shape)))
+    # 2. the fill loop
+    if len(seq) < 3:
+        raise Untranslatable("%s: %d statements touch the tensor" % (qual, len(seq)))
+    env = _unify_stmts(T_FILL_LOOP, [seq[1]], qual)
+    if ast.unparse(env["H_arr"]) != "self.data":
+        raise Untranslatable("%s fills %s" % (qual, ast.unparse(env["H_arr"])))
+    nat = NatExpr({"aa": "aa", "bb": "bb"})
+    rex = RingExpr(nat, {"self.data"}, lead)
+    fake = ast.Subscript(value=ast.parse("self.data", mode="eval").body, slice=env["H_tgt"])
+    val = env["H_val"]
+    # the value: rates[aa,bb] (static: frm.data[aa,bb]; time dependent: KK[:,aa,bb])
+    if not (isinstance(val, ast.Subscript) and ast.unparse(val.value) == rates_name):
+        raise Untranslatable("%s: filled with %s" % (qual, ast.unparse(val)))
+    vidx = _idx_list(val.slice)
+    if lead:
+        if not (len(vidx) == 3 and _is_full_slice(vidx[0])):
+            raise Untranslatable("%s: rate subscript %s" % (qual, ast.unparse(val)))
+        vidx = vidx[1:]
+    if len(vidx) != 2:
+        raise Untranslatable("%s: rate subscript %s" % (qual, ast.unparse(val)))
+    # 3. completion: updateStructure(), then the pure dephasing (always / if self.pure_dephasing)
+    rest = seq[2:]
+    if ast.unparse(rest[0]) != "self.updateStructure()":
+        raise Untranslatable("%s: after the fill loop comes %s" % (qual, ast.unparse(rest[0])[:60]))
+    deph = rest[1:]
+    if always_dephasing:
+        ok = len(deph) == 1 and ast.unparse(deph[0]) == "self.add_dephasing()"
+    else:
+        ok = (len(deph) == 1 and isinstance(deph[0], ast.If) and ast.unparse(deph[0].test) == "self.pure_dephasing"
+              and [ast.unparse(x) for x in _live(deph[0].body)] == ["self.add_dephasing()"] and not deph[0].orelse)
+    if not ok:
+        raise Untranslatable("%s: completion statements %s" % (qual, [ast.unparse(x)[:40] for x in deph]))
+    d = dict(tag=tag, n1=nat.e(env["H_n1"]), n2=nat.e(env["H_n2"]), cond=nat.b(env["H_cond"]), tgt=_tuple4(nat, rex.tens(fake)),
+             val="(K %s %s)" % (nat.e(vidx[0]), nat.e(vidx[1])), upd="gen_update%s" % ("5" if lead else "4"), deph="gen_dephasing%s" % tag)
+    return """
+  Definition f%(tag)s_n1 : nat := %(n1)s.
+  Definition f%(tag)s_n2 : nat := %(n2)s.
+  Definition f%(tag)s_cond (aa bb : nat) : bool := %(cond)s.
+  Definition f%(tag)s_tgt (aa bb : nat) : idx4 := %(tgt)s.
+  Definition f%(tag)s_val (K : @mat R) (aa bb : nat) : R := %(val)s.
+  (* initialize(): zero tensor, fill loop, updateStructure() *)
+  Definition gen_foerster_init%(tag)s (K : @mat R) : @tens R :=
+    %(upd)s (gs_skel f%(tag)s_n1 f%(tag)s_n2 f%(tag)s_cond f%(tag)s_tgt (f%(tag)s_val K) (fun _ _ _ _ => r0 R)).
+  Lemma gen_foerster_fill%(tag)s_is_model K a b c d : (a < n)%%nat -> (c < n)%%nat ->
+    gs_skel f%(tag)s_n1 f%(tag)s_n2 f%(tag)s_cond f%(tag)s_tgt (f%(tag)s_val K) (fun _ _ _ _ => r0 R) a b c d = rates_to_tensor K a b c d.
+  Proof.
+    intros Ha Hc. apply (gs_skel_is_model n); try assumption; intros; unfold f%(tag)s_n1, f%(tag)s_n2, f%(tag)s_cond, f%(tag)s_tgt, f%(tag)s_val;
+      first [reflexivity | (rewrite Nat.eqb_sym; reflexivity)].
+  Qed.
+  Lemma gen_foerster_init%(tag)s_is_model K a b c d : (a < n)%%nat -> (b < n)%%nat -> (c < n)%%nat -> (d < n)%%nat ->
+    gen_foerster_init%(tag)s K a b c d = foerster_tensor n half K a b c d.
+  Proof.
+    intros Ha Hb Hc Hd. unfold gen_foerster_init%(tag)s, foerster_tensor. rewrite %(upd)s_is_model by assumption.
+    apply (update_structure_ext n half); try assumption.
+    intros x y z w Hx Hy Hz Hw. apply gen_foerster_fill%(tag)s_is_model; assumption.
+  Qed.
+  (* ... and with the pure dephasing of add_dephasing() on top *)
+  Definition gen_foerster_full%(tag)s (h : nat -> R) (K : @mat R) : @tens R := %(deph)s h (gen_foerster_init%(tag)s K).
+  Lemma gen_foerster_full%(tag)s_is_model h K a b c d : (a < n)%%nat -> (b < n)%%nat -> (c < n)%%nat -> (d < n)%%nat ->
+    gen_foerster_full%(tag)s h K a b c d = add_dephasing DephRepaired h (foerster_tensor n half K) a b c d.
+  Proof.
+    intros Ha Hb Hc Hd. unfold gen_foerster_full%(tag)s. rewrite %(deph)s_is_model by assumption.
+    unfold add_dephasing. rewrite gen_foerster_init%(tag)s_is_model by assumption. reflexivity.
+  Qed.
+""" % d
+
+
+def foerster_init(repo):
+    return (_foerster_init(repo, "/quantarhei/qm/liouvillespace/foerstertensor.py", "FoersterRelaxationTensor.initialize", 0, "S", "frm.data", False)
+            + _foerster_init(repo, "/quantarhei/qm/liouvillespace/tdfoerstertensor.py", "TDFoersterRelaxationTensor.initialize", 1, "T", "KK", True))
+
+
 C01X_FILE = """
 (* ---- second part, GENERATED by harness/translate_c01.py: completion loops and glue (skeletons of Proofs/C01gen.v) ---- *)
 From Coq Require Import Lia.
@@ -478,11 +590,13 @@ def extra(repo):
     parts = [update_structure(repo),
              _add_dephasing(repo, "/quantarhei/qm/liouvillespace/foerstertensor.py", "FoersterRelaxationTensor.add_dephasing", 0, "S"),
              _add_dephasing(repo, "/quantarhei/qm/liouvillespace/tdfoerstertensor.py", "TDFoersterRelaxationTensor.add_dephasing", 1, "T"),
-             rf_add(repo), redfield_glue(repo), lindblad_glue(repo)]
+             rf_add(repo), redfield_glue(repo), lindblad_glue(repo), foerster_init(repo)]
     what = ["relaxationtensor.py:RelaxationTensor.updateStructure (both branches: loops, targets, right-hand sides)",
             "foerstertensor.py:FoersterRelaxationTensor.add_dephasing (update loop)",
             "tdfoerstertensor.py:TDFoersterRelaxationTensor.add_dephasing (update loop)",
             "redfieldfoerster.py:RedfieldFoersterRelaxationTensor._reference_implementation (rate-adding loop)",
             "redfieldtensor.py:RedfieldRelaxationTensor._convert_operators_2_tensor / _implementation / _post_implementation (Kd, Ld, argument order)",
-            "lindbladform.py:LindbladForm._implementation (llm, lld, hand-over)"]
+            "lindbladform.py:LindbladForm._implementation (llm, lld, hand-over)",
+            "foerstertensor.py:FoersterRelaxationTensor.initialize / tdfoerstertensor.py:TDFoersterRelaxationTensor.initialize (zero allocation first, "
+            "fill loop, updateStructure, pure dephasing)"]
     return C01X_FILE % "\n".join(parts), what
